@@ -52,7 +52,10 @@ VARIABLES g, ptr, idx          \* current group, per-thread cursor into ByThread
 vars == <<g, ptr, idx>>
 MaxT == IF NG = 0 THEN 1 ELSE CHOOSE m \in { NThreads(x) : x \in 1..NG } : \A x \in 1..NG : NThreads(x) <= m
 Ptr0 == [t \in 1..MaxT |-> 1]
-Init == /\ g = 1 /\ ptr = Ptr0 /\ idx = (IF NG = 0 THEN 0 ELSE Rec[GroupStart(1)].start)
+\* "strictly in rotation" does not say with which target the rotation begins (nor does the property fix how the
+\* `index` field is used): the first selection of a group may be any target, every later one is the next in the list.
+\* (The logged `start` is what the harness put into LoadBalancer.index; it is not used for the verdict.)
+Init == /\ g = 1 /\ ptr = Ptr0 /\ idx \in 0..(IF NG = 0 THEN 0 ELSE Rec[GroupStart(1)].nt - 1)
         /\ PrintT(ToJson([badcounts |-> BadCounts, groups |-> NG]))
 
 Pending(t) == ptr[t] <= Len(ByThread[g][t])
@@ -72,7 +75,7 @@ NextGroup ==
   /\ g <= NG /\ \A t \in 1..NThreads(g) : ~Pending(t)
   /\ PrintT(ToJson([group |-> g, calls |-> Cardinality(Calls(g))]))
   /\ g' = g + 1 /\ ptr' = Ptr0
-  /\ idx' = IF g + 1 <= NG THEN Rec[GroupStart(g + 1)].start ELSE 0
+  /\ idx' \in 0..(IF g + 1 <= NG THEN Rec[GroupStart(g + 1)].nt - 1 ELSE 0)
 
 Next == (g <= NG /\ \E t \in 1..NThreads(g) : Lin(t)) \/ NextGroup
 Spec == Init /\ [][Next]_vars
